@@ -257,3 +257,165 @@ def register_streaming(reg):
                 "in-input-order-each-the-conversion-of-its-record": "forall(lambda j: implies(0 <= j < len(gaf_input.records), yielded[j] == %s(gaf_input.records[j], %s)))" % (callee, args),
             },
         ))
+
+
+# ---------------------------------------------------------------------------------------------------------
+# to_unstable: whole function, verified once per input shape (the two shapes gaftools itself emits):
+#   #bare       the path is a single bare reference-contig name (strand + or -), offsets are contig coordinates
+#   #intervals  the path alternates orientation / CONTIG:START-END tokens (strand +), offsets are path offsets
+# ghost lo[t] / hi[t] = first / last segment of the token's contig overlapping the token's interval (they exist for a valid record);
+# OUT[t] = number of (orientation, id) pairs emitted before token t;  PS[(t, i)] = total length of segments lo[t] .. i-1.
+I2c = TupleT(INT, INT)
+
+
+def tu_macros(shape):
+    m = {
+        "tok": "lambda t: gaf_line.path[t]",
+        "isori": "lambda t: gaf_line.path[t] == '>' or gaf_line.path[t] == '<'",
+        "R": "lambda t: reference[ctg(t)]",
+        "so": "lambda t, i: int(reference[ctg(t)][i].tags['SO'][1])",
+        "en": "lambda t, i: int(reference[ctg(t)][i].tags['SO'][1]) + int(reference[ctg(t)][i].tags['LN'][1])",
+        "nout": "lambda t: hi[t] - lo[t] + 1",
+    }
+    if shape == "bare":
+        m.update({"ctg": "lambda t: gaf_line.path[t]", "qs": "lambda t: gaf_line.path_start", "qe": "lambda t: gaf_line.path_end",
+                  "ori": "lambda t: ite(gaf_line.strand == '+', '>', '<')", "body": "lambda t: t == 0"})
+    else:
+        m.update({"ctg": "lambda t: split_colon(rstrip(gaf_line.path[t]))[0]",
+                  "qs": "lambda t: int(split_dash(rstrip(split_colon(rstrip(gaf_line.path[t]))[1]))[0])",
+                  "qe": "lambda t: int(split_dash(rstrip(split_colon(rstrip(gaf_line.path[t]))[1]))[1])",
+                  "ori": "lambda t: gaf_line.path[t - 1]", "body": "lambda t: t % 2 == 1"})
+    return m
+
+
+def tu_requires(shape):
+    r = []
+    if shape == "bare":
+        r += ["len(gaf_line.path) == 1", "not isori(0) and tok(0) != '' and not (str_contains(tok(0), ':') and str_contains(tok(0), '-'))",
+              "gaf_line.strand == '+' or gaf_line.strand == '-'",
+              # a rank-0 contig is fully tiled: the aligned interval starts inside its first overlapping segment
+              "so(0, lo[0]) <= qs(0)"]
+    else:
+        r += ["len(gaf_line.path) >= 2 and len(gaf_line.path) % 2 == 0", "gaf_line.strand == '+'",
+              "forall(lambda t: implies(0 <= t < len(gaf_line.path) and t % 2 == 0, isori(t)))",
+              "forall(lambda t: implies(0 <= t < len(gaf_line.path) and t % 2 == 1, not isori(t) and tok(t) != '' and str_contains(tok(t), ':') and str_contains(tok(t), '-') and "
+              "len(split_colon(rstrip(tok(t)))) == 2 and len(split_dash(rstrip(split_colon(rstrip(tok(t)))[1]))) == 2))"]
+    r += [
+        "0 <= gaf_line.path_start < gaf_line.path_end <= gaf_line.path_length",
+        "forall(lambda t: implies(0 <= t < len(gaf_line.path) and body(t), ctg(t) in reference and 0 <= qs(t) < qe(t)))",
+        "forall(lambda t, i: implies(0 <= t < len(gaf_line.path) and body(t) and 0 <= i < len(R(t)), 'SO' in R(t)[i].tags and 'LN' in R(t)[i].tags and 0 <= so(t, i) < en(t, i)))",
+        "forall(lambda t, i, j: implies(0 <= t < len(gaf_line.path) and body(t) and 0 <= i < j < len(R(t)), en(t, i) <= so(t, j)))",
+        "forall(lambda t: implies(0 <= t < len(gaf_line.path) and body(t), 0 <= lo[t] <= hi[t] < len(R(t))))",
+        "forall(lambda t, i: implies(0 <= t < len(gaf_line.path) and body(t) and 0 <= i < len(R(t)), (lo[t] <= i <= hi[t]) == (so(t, i) < qe(t) and qs(t) < en(t, i))))",
+        "OUT[0] == 0 and forall(lambda t: implies(0 <= t < len(gaf_line.path), OUT[t + 1] == OUT[t] + ite(body(t), nout(t), 0)))",
+        # pairwise form of the same prefix sums (consequence of the step form by induction; both hold for the true prefix sums)
+        "forall(lambda t, u: implies(0 <= t < u <= len(gaf_line.path), OUT[t] + ite(body(t), nout(t), 0) <= OUT[u])) and forall(lambda t: implies(0 <= t <= len(gaf_line.path), OUT[t] >= 0))",
+        "forall(lambda t: implies(0 <= t < len(gaf_line.path) and body(t), PS[(t, lo[t])] == 0))",
+        "forall(lambda t, i: implies(0 <= t < len(gaf_line.path) and body(t) and lo[t] <= i <= hi[t], PS[(t, i + 1)] == PS[(t, i)] + (en(t, i) - so(t, i))))",
+        "TOT[0] == 0 and forall(lambda t: implies(0 <= t < len(gaf_line.path), TOT[t + 1] == TOT[t] + ite(body(t), PS[(t, hi[t] + 1)], 0)))",
+        "forall(lambda t: implies(0 <= t < len(keys(gaf_line.tags)), keys(gaf_line.tags)[t] in gaf_line.tags))",
+    ]
+    return r
+
+
+EMITTED = ("forall(lambda t, k: implies(0 <= t < {n} and body(t) and 0 <= k < nout(t), "
+           "unstable_coord[2 * (OUT[t] + k)] == ori(t) and unstable_coord[2 * (OUT[t] + k) + 1] == "
+           "R(t)[ite(ori(t) == '<', hi[t] - k, lo[t] + k)].id))")
+
+
+def register_to_unstable(reg):
+    for shape in ("bare", "intervals"):
+        bare = shape == "bare"
+        ens = {
+            "always-plus-strand": "result[4] == '+'",
+            "cols-1-4": "result[0] == old(gaf_line).query_name and result[1] == str(old(gaf_line).query_length) and "
+                        "result[2] == str(old(gaf_line).query_start) and result[3] == str(old(gaf_line).query_end)",
+            "cols-10-12": "result[9] == str(old(gaf_line).residue_matches) and result[10] == str(old(gaf_line).alignment_block_length) "
+                          "and result[11] == str(old(gaf_line).mapping_quality)",
+            "walk-length": "len(untok(result[5])) == 2 * OUT[len(old(gaf_line).path)]",
+            "walk-is-the-covering-segments-in-travel-order":
+                "forall(lambda t, k: implies(0 <= t < len(old(gaf_line).path) and body(t) and 0 <= k < nout(t), "
+                "untok(result[5])[2 * (OUT[t] + k)] == ori(t) and untok(result[5])[2 * (OUT[t] + k) + 1] == R(t)[ite(ori(t) == '<', hi[t] - k, lo[t] + k)].id))",
+            "aligned-length": "int(result[8]) - int(result[7]) == old(gaf_line).path_end - old(gaf_line).path_start",
+            "cigar-reversed-iff-flip": "implies('cg:Z:' in old(gaf_line).tags, gaf_line.tags['cg:Z:'] == ite(old(gaf_line).strand == '-', reverse_cigar_of(old(gaf_line).cigar), old(gaf_line).tags['cg:Z:']))",
+            "no-tag-invented": "same(keys(gaf_line.tags), keys(old(gaf_line).tags))",
+            "other-tags-unchanged": "forall(STR, lambda k: implies(k != 'cg:Z:', gaf_line.tags[k] == old(gaf_line).tags[k]))",
+            "tags-in-order": "len(result) == 12 + len(keys(gaf_line.tags)) and forall(lambda t: implies(0 <= t < len(keys(gaf_line.tags)), result[12 + t] == cat(keys(gaf_line.tags)[t], gaf_line.tags[keys(gaf_line.tags)[t]])))",
+        }
+        if bare:
+            ens.update({
+                "bare-total-is-the-length-of-the-covering-segments": "int(result[6]) == PS[(0, hi[0] + 1)]",
+                "bare-forward-identity": "implies(old(gaf_line).strand == '+' and 0 <= r < old(gaf_line).path_end - old(gaf_line).path_start, "
+                                         "so(0, lo[0]) + (int(result[7]) + r) == old(gaf_line).path_start + r)",
+                "bare-reverse-identity": "implies(old(gaf_line).strand == '-' and 0 <= r < old(gaf_line).path_end - old(gaf_line).path_start, "
+                                         "(so(0, lo[0]) + PS[(0, hi[0] + 1)]) - 1 - (int(result[7]) + r) == old(gaf_line).path_end - 1 - r)",
+            })
+        else:
+            ens["split-offsets-copied"] = ("int(result[6]) == old(gaf_line).path_length and int(result[7]) == old(gaf_line).path_start and "
+                                           "int(result[8]) == old(gaf_line).path_end")
+        tpos = "0" if bare else "it1 - 1"
+        reg.add(Contract(
+            file=CONV, func="to_unstable", variant="#" + shape,
+            params=dict(gaf_line=Alignment, reference=DictT(STR, ListT(GNode))), returns=LINE, modifies=["gaf_line"],
+            ghost=dict(lo=IMAP, hi=IMAP, OUT=IMAP, PS=MapT(I2c, INT), TOT=IMAP, L12=LINE, r=INT),
+            types=dict(STR=STR, INT=INT),
+            ufuns=dict(SEG_UFUNS, split_colon=([STR], LINE), split_dash=([STR], LINE), rstrip=([STR], STR), str_contains=([STR, STR], BOOL)),
+            spec_funcs=tu_macros(shape),
+            call_ghost={"search_intervals": {"w": "lo[it1 - 1]"}},
+            locals=dict(unstable_coord=LINE, orient=Opt(STR), nodes_tmp=ListT(STR), new_line=LINE, split_contig=BOOL),
+            requires=tu_requires(shape),
+            loops={
+                1: Loop(index="it1", fingerprint="for nd in gaf_contigs",
+                        pres_from={"emitted": ["emitted-this-token", "emitted-earlier-kept", "token"]}, invariant={
+                    "orient": ("implies(it1 >= 1, (not is_none(orient)) and val(orient) == ori(0)) and implies(it1 == 0, is_none(orient))" if bare else
+                               "implies(it1 >= 1 and it1 % 2 == 1, (not is_none(orient)) and val(orient) == tok(it1 - 1)) and implies(it1 == 0, is_none(orient))"),
+                    "emitted-count": "len(unstable_coord) == 2 * OUT[it1]",
+                    "emitted": EMITTED.format(n="it1"),
+                    "total": "new_total == TOT[it1]",
+                    "first-offset": ("implies(it1 >= 1, new_start == qs(0) - so(0, lo[0])) and implies(it1 == 0, new_start == -1)" if bare else "True"),
+                    "split-flag": "implies(it1 >= 1 and body(it1 - 1), defined(split_contig) and split_contig == %s)" % ("False" if bare else "True"),
+                }),
+                2: Loop(index="it2", fingerprint="for i in reference[query_contig_name][start:end + 1]", invariant={
+                    "window": "0 <= start <= lo[it1 - 1] and hi[it1 - 1] <= end",
+                    "taken": "len(nodes_tmp) == ite(start + it2 <= lo[it1 - 1], 0, ite(start + it2 > hi[it1 - 1], nout(it1 - 1), start + it2 - lo[it1 - 1]))",
+                    "taken-ids": "forall(lambda k: implies(0 <= k < len(nodes_tmp), nodes_tmp[k] == R(it1 - 1)[lo[it1 - 1] + k].id))",
+                    "total": "new_total == TOT[it1 - 1] + PS[(it1 - 1, lo[it1 - 1] + len(nodes_tmp))]",
+                    "first-offset": ("implies(len(nodes_tmp) >= 1, new_start == qs(0) - so(0, lo[0])) and implies(len(nodes_tmp) == 0, new_start == -1)" if bare else "True"),
+                }),
+                3: Loop(index="it3", fingerprint="for i in reversed(nodes_tmp)", invariant={
+                    "emitted-count": "len(unstable_coord) == 2 * (OUT[it1 - 1] + it3)",
+                    "emitted-earlier": EMITTED.format(n="it1 - 1"),
+                    "emitted-now": "forall(lambda k: implies(0 <= k < it3, unstable_coord[2 * (OUT[it1 - 1] + k)] == '<' and "
+                                   "unstable_coord[2 * (OUT[it1 - 1] + k) + 1] == R(it1 - 1)[hi[it1 - 1] - k].id))",
+                }),
+                4: Loop(index="it4", fingerprint="for i in nodes_tmp", invariant={
+                    "emitted-count": "len(unstable_coord) == 2 * (OUT[it1 - 1] + it4)",
+                    "emitted-earlier": EMITTED.format(n="it1 - 1"),
+                    "emitted-now": "forall(lambda k: implies(0 <= k < it4, unstable_coord[2 * (OUT[it1 - 1] + k)] == val(orient) and "
+                                   "unstable_coord[2 * (OUT[it1 - 1] + k) + 1] == R(it1 - 1)[lo[it1 - 1] + k].id))",
+                }),
+                5: Loop(index="it5", fingerprint="for k in gaf_line.tags.keys()", ghost_before="L12 = new_line", invariant={
+                    "len": "len(new_line) == 12 + it5", "prefix": "forall(lambda f: implies(0 <= f < 12, new_line[f] == L12[f]))",
+                    "tags": "forall(lambda t: implies(0 <= t < it5, new_line[12 + t] == cat(keys(gaf_line.tags)[t], gaf_line.tags[keys(gaf_line.tags)[t]])))",
+                }),
+            },
+            assert_at={
+                "before:start, end = utils.search_intervals(": {
+                    "token": "nd == tok(it1 - 1) and body(it1 - 1)",
+                    "contig-decoded": "query_contig_name == ctg(it1 - 1)",
+                    "interval-decoded": "int(query_start) == qs(it1 - 1) and int(query_end) == qe(it1 - 1)",
+                    "split-flag": "split_contig == %s" % ("False" if bare else "True"),
+                    "orient-is-the-token-orientation": "(not is_none(orient)) and val(orient) == ori(it1 - 1)"},
+                "before:if orient == '<':": {
+                    "all-overlapping-segments-taken": "len(nodes_tmp) == nout(it1 - 1)"},
+                "before:s = int(i.tags['SO'][1])": {"slice-element": "start + it2 - 1 < len(R(it1 - 1)) and same(i, R(it1 - 1)[start + it2 - 1])"},
+                "before:return new_line": {"path-field-is-the-emitted-walk": "same(untok(new_line[5]), unstable_coord)"},
+                "after:if orient == '<':": {
+                    "emitted-count-after-token": "len(unstable_coord) == 2 * (OUT[it1 - 1] + nout(it1 - 1))",
+                    "emitted-this-token": "forall(lambda k: implies(0 <= k < nout(it1 - 1), unstable_coord[2 * (OUT[it1 - 1] + k)] == ori(it1 - 1) and "
+                                          "unstable_coord[2 * (OUT[it1 - 1] + k) + 1] == R(it1 - 1)[ite(ori(it1 - 1) == '<', hi[it1 - 1] - k, lo[it1 - 1] + k)].id))",
+                    "emitted-earlier-kept": EMITTED.format(n="it1 - 1")}},
+            ensures=ens,
+            notes="bare-*-identity: with the covering segments tiling [so(lo), so(lo)+PS) the base at read offset r sits at contig position so(lo)+start'+r (forward walk) "
+                  "resp. so(lo)+PS-1-(start'+r) (reversed walk), which must be path_start+r resp. path_end-1-r of the input",
+        ))
